@@ -94,6 +94,8 @@ def replay(spec, steps):
                     obs = realize.perform(target, val.norm(last["op"]), 0, args=args)
                     ok, why = realize.matches(obs, val.norm(last["ret"]))
                     if not ok:
+                        if last["op"]["op"] == "popitem" and obs[0] == "ret":
+                            return problems       # any item is allowed: the behaviour cannot be followed further
                         problems.append({"aspect": "ret" if last["attached"] else "orphan-ret", "step": n, "detail": why})
                         break
             raw = res.read_raw()
